@@ -102,12 +102,24 @@ Section Exact.
 Let z : N -> N := fun _ => 0.
 
 (* the generic receive loop under a deadline (the async one, exact timers), characterised *)
+Lemma arl_nil dl now : async_recv_loop acc z dl [] now = (Err IO_TIMEDOUT, dl, []).
+Proof. cbn [async_recv_loop]. unfold z. rewrite N.add_0_r. reflexivity. Qed.
+Lemma arl_cons dl t d rest now : async_recv_loop acc z dl ((t, d) :: rest) now =
+  if t <? dl then
+    match good d with
+    | Some fl => (Ok (d, fl), N.max now t, rest)
+    | None => async_recv_loop acc z dl rest (N.max now t)
+    end
+  else (Err IO_TIMEDOUT, dl, (t, d) :: rest).
+Proof. cbn [async_recv_loop]. rewrite acc_good. unfold z. rewrite N.add_0_r. destruct (good d); reflexivity. Qed.
+
 Lemma scan_answer dl : forall arrs now lo t d fl,
   sorted_from lo arrs -> first_good good arrs = Some (t, d, fl) -> t < dl ->
   exists rest, async_recv_loop acc z dl arrs now = (Ok (d, fl), N.max now t, rest) /\ sorted_from t rest.
 Proof.
-  induction arrs as [|[t1 d1] r IH]; cbn [first_good sorted_from async_recv_loop]; intros now lo t d fl Hs H Ht; [discriminate|].
-  destruct Hs as [H1 H2]. rewrite acc_good. destruct (good d1) as [f|] eqn:Eg.
+  induction arrs as [|[t1 d1] r IH]; intros now lo t d fl Hs H Ht; [discriminate|].
+  rewrite arl_cons. cbn [first_good sorted_from] in *.
+  destruct Hs as [H1 H2]. destruct (good d1) as [f|] eqn:Eg.
   - inversion H; subst. destruct (t <? dl) eqn:E; [|lia]. exists r. split; [reflexivity|assumption].
   - pose proof (first_good_time _ _ _ _ _ H2 H) as Hle.
     destruct (t1 <? dl) eqn:E; [|lia].
@@ -115,35 +127,35 @@ Proof.
     rewrite E1. f_equal. f_equal. lia.
 Qed.
 
-Lemma scan_timeout dl : forall arrs now lo,
+Lemma scan_timeout dl : forall arrs now lo, now <= dl ->
   sorted_from lo arrs -> (forall t d fl, first_good good arrs = Some (t, d, fl) -> dl <= t) ->
   exists rest, async_recv_loop acc z dl arrs now = (Err IO_TIMEDOUT, dl, rest) /\
     first_good good rest = first_good good arrs /\ sorted_from (N.max lo dl) rest.
 Proof.
-  induction arrs as [|[t1 d1] r IH]; cbn [first_good sorted_from async_recv_loop]; intros now lo Hs H.
-  - exists []. unfold z. split; [f_equal; f_equal; lia|split; [reflexivity|exact I]].
-  - destruct Hs as [H1 H2]. destruct (t1 <? dl) eqn:E.
-    + rewrite acc_good. destruct (good d1) as [f|] eqn:Eg.
+  induction arrs as [|[t1 d1] r IH]; intros now lo Hn Hs H.
+  - exists []. rewrite arl_nil. split; [reflexivity|split; [reflexivity|exact I]].
+  - rewrite arl_cons. cbn [first_good sorted_from] in *. destruct Hs as [H1 H2]. destruct (t1 <? dl) eqn:E.
+    + destruct (good d1) as [f|] eqn:Eg.
       * specialize (H _ _ _ eq_refl). lia.
-      * destruct (IH (N.max now t1) t1 H2 H) as [rest [E1 [E2 E3]]]. exists rest. repeat split; try assumption.
+      * destruct (IH (N.max now t1) t1 ltac:(lia) H2 H) as [rest [E1 [E2 E3]]]. exists rest. repeat split; try assumption.
         eapply sorted_from_weaken; [|exact E3]. lia.
-    + exists ((t1, d1) :: r). unfold z. split; [f_equal; f_equal; lia|split; [reflexivity|]].
+    + exists ((t1, d1) :: r). split; [reflexivity|split; [reflexivity|]].
       cbn [sorted_from]. split; [lia|assumption].
 Qed.
 
 (* the blocking client's receive loop, which re-computes a relative timeout from the clock before
    every recv, is the loop under the fixed deadline min(query_start + timeout, start + lifetime) *)
 Lemma std_recv_is_scan qs : forall arrs now, start <= qs -> qs <= now -> now < N.min (qs + T) D ->
-  std_recv_loop acc start lifetime qt z qs arrs now = async_recv_loop acc z (N.min (qs + T) D) arrs now.
+  std_recv_loop acc start lifetime qt z z qs arrs now = async_recv_loop acc z (N.min (qs + T) D) arrs now.
 Proof.
-  induction arrs as [|[t1 d1] r IH]; intros now H1 H2 H3; cbn [std_recv_loop async_recv_loop];
+  induction arrs as [|[t1 d1] r IH]; intros now H1 H2 H3; [rewrite arl_nil|rewrite arl_cons]; cbn [std_recv_loop];
     destruct (query_left_at_cases now start qs lifetime qt H1 H2) as [[A _]|[[_ [A _]]|[_ [_ A]]]];
     try lia; rewrite A.
   - unfold z. f_equal. f_equal. lia.
   - replace (now + (N.min (qs + tmo lifetime qt) (start + lifetime) - now)) with (N.min (qs + T) D) by lia.
     destruct (t1 <? N.min (qs + T) D) eqn:E.
-    + rewrite acc_good. destruct (good d1); [reflexivity|]. apply IH; lia.
-    + reflexivity.
+    + rewrite acc_good. replace (N.max now t1 + z (N.max now t1)) with (N.max now t1) by (unfold z; lia). destruct (good d1); [reflexivity|]. apply IH; lia.
+    + unfold z. rewrite N.add_0_r. reflexivity.
 Qed.
 
 Definition res_of (r : spec_result) : res (list byte * N) :=
@@ -180,7 +192,7 @@ Proof.
         rewrite E1. destruct (t <? D) eqn:E2; [|lia]. cbn [fst snd res_of schedule].
         destruct (now + q <? N.max now t + 1) eqn:E3; [lia|]. exists rest. reflexivity.
       * (* not in this attempt *)
-        destruct (scan_timeout (N.min (now + q) D) arrs now lo Hs) as [rest [E1 [E2 E3]]].
+        destruct (scan_timeout (N.min (now + q) D) arrs now lo ltac:(lia) Hs) as [rest [E1 [E2 E3]]].
         { intros t' d' fl' H. rewrite Eg in H. inversion H; subst. lia. }
         rewrite E1. cbn [is_timedout IO_TIMEDOUT]. replace (2 =? 2) with true by reflexivity.
         destruct (now + q <? D) eqn:E4.
@@ -193,7 +205,7 @@ Proof.
            ++ rewrite E4. reflexivity.
         -- cbn [andb]. replace (N.min (now + q) D) with D in * by lia.
            destruct (t <? D) eqn:E6; [lia|]. cbn [fst snd schedule res_of]. rewrite E4. exists rest. reflexivity.
-    + destruct (scan_timeout (N.min (now + q) D) arrs now lo Hs) as [rest [E1 [E2 E3]]].
+    + destruct (scan_timeout (N.min (now + q) D) arrs now lo ltac:(lia) Hs) as [rest [E1 [E2 E3]]].
       { intros t' d' fl' H. rewrite Eg in H. discriminate. }
       rewrite E1. cbn [is_timedout IO_TIMEDOUT]. replace (2 =? 2) with true by reflexivity.
       destruct (now + q <? D) eqn:E4.
@@ -206,28 +218,28 @@ Proof.
     + destruct (t <? D) eqn:Et.
       * destruct (scan_answer D arrs now lo t d fl Hs Eg ltac:(lia)) as [rest [E1 _]].
         rewrite E1. exists rest. reflexivity.
-      * destruct (scan_timeout D arrs now lo Hs) as [rest [E1 _]].
+      * destruct (scan_timeout D arrs now lo ltac:(lia) Hs) as [rest [E1 _]].
         { intros t' d' fl' H. rewrite Eg in H. inversion H; subst. lia. }
         rewrite E1. exists rest. reflexivity.
-    + destruct (scan_timeout D arrs now lo Hs) as [rest [E1 _]].
+    + destruct (scan_timeout D arrs now lo ltac:(lia) Hs) as [rest [E1 _]].
       { intros t' d' fl' H. rewrite Eg in H. discriminate. }
       rewrite E1. exists rest. reflexivity.
 Qed.
-Lemma scan_shape dl : forall arrs now r t rest,
+Lemma scan_shape dl : forall arrs now r t rest, now <= dl ->
   async_recv_loop acc z dl arrs now = (r, t, rest) ->
   (exists d fl, r = Ok (d, fl) /\ good d = Some fl) \/ (r = Err IO_TIMEDOUT /\ t = dl).
 Proof.
-  induction arrs as [|[t1 d1] a IH]; cbn [async_recv_loop]; intros now r t rest H.
-  - inversion H; subst. right. split; [reflexivity|unfold z; lia].
-  - destruct (t1 <? dl).
-    + rewrite acc_good in H. destruct (good d1) as [f|] eqn:Eg.
+  induction arrs as [|[t1 d1] a IH]; intros now r t rest Hn H.
+  - rewrite arl_nil in H. inversion H; subst. right. split; reflexivity.
+  - rewrite arl_cons in H. destruct (t1 <? dl) eqn:E.
+    + destruct (good d1) as [f|] eqn:Eg.
       * inversion H; subst. left. exists d1, f. split; [reflexivity|assumption].
-      * eapply IH; eassumption.
-    + inversion H; subst. right. split; [reflexivity|unfold z; lia].
+      * eapply (IH (N.max now t1)); [lia|eassumption].
+    + inversion H; subst. right. split; reflexivity.
 Qed.
 
 Lemma std_at_deadline f arrs now : D <= now -> start <= now ->
-  std_udp_exchange acc start lifetime qt z (S f) arrs now = ([], Err Timeout, now, arrs).
+  std_udp_exchange acc start lifetime qt z z (S f) arrs now = ([], Err Timeout, now, arrs).
 Proof.
   intros H H0. cbn [std_udp_exchange].
   destruct (query_left_at_cases now start now lifetime qt H0 (N.le_refl _)) as [[_ A]|[[A _]|[A _]]]; try lia.
@@ -238,7 +250,7 @@ Qed.
    same instants, return the same outcome at the same instant and leave the same queue *)
 Theorem std_is_async_exact : forall fuel arrs now,
   qt_pos -> start <= now -> now < D -> (N.to_nat (D - now) < fuel)%nat ->
-  std_udp_exchange acc start lifetime qt z fuel arrs now = async_udp_exchange acc start lifetime qt z smol fuel arrs now.
+  std_udp_exchange acc start lifetime qt z z fuel arrs now = async_udp_exchange acc start lifetime qt z smol fuel arrs now.
 Proof.
   induction fuel as [|f IH]; intros arrs now Hq H1 H2 Hf; [lia|].
   assert (Hq' := Hq). unfold qt_pos in Hq'.
@@ -250,7 +262,7 @@ Proof.
   destruct qt as [q|] eqn:Eqt; unfold tmo.
   - destruct (async_durations_are_configured smol lifetime q) as [_ Ead]. rewrite Ead.
     destruct (async_recv_loop acc z (N.min (now + q) D) arrs now) as [[r t] rest] eqn:Es.
-    destruct (scan_shape _ _ _ _ _ _ Es) as [[d [fl [-> _]]]|[-> ->]]; [reflexivity|].
+    destruct (scan_shape (N.min (now + q) D) arrs now r t rest ltac:(lia) Es) as [[d [fl [-> _]]]|[-> ->]]; [reflexivity|].
     cbn [is_timedout IO_TIMEDOUT]. replace (2 =? 2) with true by reflexivity.
     destruct (now + q <? D) eqn:E4.
     + replace (N.min (now + q) D) with (now + q) by lia. rewrite E4. cbn [andb].
@@ -259,14 +271,14 @@ Proof.
       rewrite std_at_deadline by lia. reflexivity.
   - replace (N.min (now + lifetime) D) with D by lia.
     destruct (async_recv_loop acc z D arrs now) as [[r t] rest] eqn:Es.
-    destruct (scan_shape _ _ _ _ _ _ Es) as [[d [fl [-> _]]]|[-> ->]]; [reflexivity|].
+    destruct (scan_shape D arrs now r t rest ltac:(lia) Es) as [[d [fl [-> _]]]|[-> ->]]; [reflexivity|].
     cbn [is_timedout IO_TIMEDOUT]. replace (2 =? 2) with true by reflexivity.
     rewrite <- Eqt. rewrite std_at_deadline by lia. reflexivity.
 Qed.
 
 Corollary std_exact fuel arrs lo :
   qt_pos -> 0 < lifetime -> sorted_from lo arrs -> (N.to_nat lifetime < fuel)%nat ->
-  exists rest, std_udp_exchange acc start lifetime qt z fuel arrs start =
+  exists rest, std_udp_exchange acc start lifetime qt z z fuel arrs start =
     (fst (fst (spec_udp good fuel start lifetime qt arrs)), res_of (snd (fst (spec_udp good fuel start lifetime qt arrs))),
      snd (spec_udp good fuel start lifetime qt arrs), rest).
 Proof.
@@ -276,38 +288,40 @@ Qed.
 End Exact.
 (* ================================================================ timers that fire late (by at most eps) *)
 Section Slack.
-Variables (jit : N -> N) (eps : N).
+Variables (jit proc : N -> N) (eps : N).
 Hypothesis jit_le : forall t, jit t <= eps.
+Hypothesis proc_le : forall t, proc t <= eps.
 
 Definition exch_ok (r : res (list byte * N)) : Prop :=
   match r with Ok (d, fl) => good d = Some fl | Err e => e = Timeout | OutOfFuel => True | _ => False end.
 
 Lemma std_recv_bound qs : forall arrs now r t rest, start <= qs -> qs <= now ->
-  std_recv_loop acc start lifetime qt jit qs arrs now = (r, t, rest) ->
+  std_recv_loop acc start lifetime qt jit proc qs arrs now = (r, t, rest) ->
   now <= t /\
   match r with
-  | Ok (d, fl) => good d = Some fl /\ t < N.min (qs + T) D
-  | Err e => (e = Timeout /\ t = now /\ D <= now) \/
-             (e = IO_TIMEDOUT /\ N.min (qs + T) D <= t /\ t <= N.max now (N.min (qs + T) D + eps))
+  | Ok (d, fl) => good d = Some fl /\ t <= N.min (qs + T) D + eps
+  | Err e => (e = Timeout /\ D <= t \/ e = IO_TIMEDOUT /\ N.min (qs + T) D <= t) /\
+             t <= N.max now (N.min (qs + T) D + eps)
   | _ => False
   end.
 Proof.
   induction arrs as [|[t1 d1] a IH]; intros now r t rest H1 H2 H; cbn [std_recv_loop] in H;
     destruct (query_left_at_cases now start qs lifetime qt H1 H2) as [[A0 A]|[[A0 [A1 A]]|[A0 [A1 A]]]];
     rewrite A in H; cbn [retype] in H.
-  - inversion H; subst. split; [lia|]. left. repeat split; lia.
-  - inversion H; subst. split; [lia|]. right. repeat split; lia.
-  - inversion H; subst. pose proof (jit_le now). split; [lia|]. right. repeat split; lia.
-  - inversion H; subst. split; [lia|]. left. repeat split; lia.
-  - inversion H; subst. split; [lia|]. right. repeat split; lia.
+  - inversion H; subst. split; [lia|]. split; [left; split; [reflexivity|lia]|lia].
+  - inversion H; subst. split; [lia|]. split; [right; split; [reflexivity|lia]|lia].
+  - inversion H; subst. pose proof (jit_le now). split; [lia|]. split; [right; split; [reflexivity|lia]|lia].
+  - inversion H; subst. split; [lia|]. split; [left; split; [reflexivity|lia]|lia].
+  - inversion H; subst. split; [lia|]. split; [right; split; [reflexivity|lia]|lia].
   - replace (now + (N.min (qs + T) D - now)) with (N.min (qs + T) D) in H by lia.
+    pose proof (proc_le (N.max now t1)) as Hp.
     destruct (t1 <? N.min (qs + T) D) eqn:E.
     + rewrite acc_good in H. destruct (good d1) as [f|] eqn:Eg.
       * inversion H; subst. split; [lia|]. split; [assumption|lia].
       * apply IH in H; try lia. destruct H as [Ha Hb]. split; [lia|].
         destruct r as [[d fl]|e| | | |]; try assumption.
-        destruct Hb as [[-> [-> Hb]]|[-> [Hb Hc]]]; [left; repeat split; lia|right; repeat split; lia].
-    + inversion H; subst. pose proof (jit_le now). split; [lia|]. right. repeat split; lia.
+        destruct Hb as [Hb Hc]. split; [assumption|lia].
+    + inversion H; subst. pose proof (jit_le now). split; [lia|]. split; [right; split; [reflexivity|lia]|lia].
 Qed.
 
 (* consecutive transmissions are a query timeout apart (plus at most the slack), all before the deadline *)
@@ -315,7 +329,7 @@ Fixpoint gaps (x : N) (s : list N) : Prop :=
   match s with [] => True | y :: s' => x + T <= y /\ y <= x + T + eps /\ y < D /\ gaps y s' end.
 
 Theorem std_exchange_bounds : forall fuel arrs now s r t rest, qt_pos -> start <= now ->
-  std_udp_exchange acc start lifetime qt jit fuel arrs now = (s, r, t, rest) ->
+  std_udp_exchange acc start lifetime qt jit proc fuel arrs now = (s, r, t, rest) ->
   now <= t /\ t <= N.max now (D + eps) /\ exch_ok r /\
   (s = [] \/ exists s', s = now :: s' /\ now < D /\ gaps now s') /\
   Forall (fun x => now <= x /\ x <= t) s /\
@@ -327,17 +341,19 @@ Proof.
       rewrite A in H; cbn [retype] in H.
     + inversion H; subst. repeat split; try lia. left; reflexivity. constructor. cbn [last]. lia.
     + (* the timeout would be zero *) exfalso. unfold qt_pos in Hq. unfold tmo in A1. destruct qt; lia.
-    + destruct (std_recv_loop acc start lifetime qt jit now arrs now) as [[r1 t1] rest1] eqn:Er.
+    + destruct (std_recv_loop acc start lifetime qt jit proc now arrs now) as [[r1 t1] rest1] eqn:Er.
       destruct (std_recv_bound now arrs now r1 t1 rest1 H1 (N.le_refl _) Er) as [Ha Hb].
       destruct r1 as [[d fl]|e| | | |]; try contradiction.
       * inversion H; subst. destruct Hb as [Hb Hc]. repeat split; try lia; try assumption.
         -- right. exists []. repeat split; lia.
         -- constructor; [lia|constructor].
         -- discriminate.
-      * destruct Hb as [[-> [-> Hb]]|[-> [Hb Hc]]].
-        -- cbn [is_timedout] in H. inversion H; subst. lia.
+      * destruct Hb as [[[-> Hb]|[-> Hb]] Hc].
+        -- cbn [is_timedout] in H. inversion H; subst. cbn [exch_ok last]. repeat split; try lia.
+           ++ right. exists []. repeat split; lia.
+           ++ constructor; [lia|constructor].
         -- cbn [is_timedout IO_TIMEDOUT] in H. replace (2 =? 2) with true in H by reflexivity.
-           destruct (std_udp_exchange acc start lifetime qt jit f rest1 t1) as [[[s2 r2] t2] rest2] eqn:E2.
+           destruct (std_udp_exchange acc start lifetime qt jit proc f rest1 t1) as [[[s2 r2] t2] rest2] eqn:E2.
            destruct (IH rest1 t1 s2 r2 t2 rest2 Hq ltac:(lia) E2) as (B1 & B2 & B3 & B4 & B5 & B6). inversion H; subst.
            repeat split; try lia; try assumption.
            ++ right. exists s2. repeat split; try lia.
@@ -349,16 +365,17 @@ Proof.
                    rewrite C in E2; cbn [retype] in E2.
                  --- lia.
                  --- exfalso. unfold qt_pos in Hq. unfold tmo in C1. destruct qt; lia.
-                 --- destruct (std_recv_loop acc start lifetime qt jit t1 rest1 t1) as [[r3 t3] rest3].
+                 --- destruct (std_recv_loop acc start lifetime qt jit proc t1 rest1 t1) as [[r3 t3] rest3].
                      destruct r3 as [[? ?]|e3| | | |]; try (inversion E2; fail).
                      destruct (is_timedout e3); [|inversion E2].
-                     destruct (std_udp_exchange acc start lifetime qt jit f' rest3 t3) as [[[? ?] ?] ?]. inversion E2.
+                     destruct (std_udp_exchange acc start lifetime qt jit proc f' rest3 t3) as [[[? ?] ?] ?]. inversion E2.
               ** change (last (now :: t1 :: s') now) with (last (t1 :: s') now).
                  rewrite (last_cons_default s' t1 now t1). assumption.
 Qed.
+
 (* what an exchange leaves in the queue is a suffix of what it found *)
 Lemma std_recv_suffix qs : forall arrs now r t rest,
-  std_recv_loop acc start lifetime qt jit qs arrs now = (r, t, rest) -> exists pre, arrs = pre ++ rest.
+  std_recv_loop acc start lifetime qt jit proc qs arrs now = (r, t, rest) -> exists pre, arrs = pre ++ rest.
 Proof.
   induction arrs as [|[t1 d1] a IH]; intros now r t rest H; cbn [std_recv_loop] in H.
   - destruct (query_left_at now start qs lifetime qt); inversion H; exists []; reflexivity.
@@ -369,15 +386,15 @@ Proof.
     + apply IH in H. destruct H as [pre ->]. exists ((t1, d1) :: pre). reflexivity.
 Qed.
 Lemma std_exchange_suffix : forall fuel arrs now s r t rest,
-  std_udp_exchange acc start lifetime qt jit fuel arrs now = (s, r, t, rest) -> exists pre, arrs = pre ++ rest.
+  std_udp_exchange acc start lifetime qt jit proc fuel arrs now = (s, r, t, rest) -> exists pre, arrs = pre ++ rest.
 Proof.
   induction fuel as [|f IH]; intros arrs now s r t rest H; cbn [std_udp_exchange] in H; [inversion H; exists []; reflexivity|].
   destruct (query_left_at now start now lifetime qt); try (inversion H; exists []; reflexivity).
-  destruct (std_recv_loop acc start lifetime qt jit now arrs now) as [[r1 t1] rest1] eqn:Er.
+  destruct (std_recv_loop acc start lifetime qt jit proc now arrs now) as [[r1 t1] rest1] eqn:Er.
   destruct (std_recv_suffix _ _ _ _ _ _ Er) as [pre ->].
   destruct r1 as [x|e| | | |]; try (inversion H; subst; exists pre; reflexivity).
   destruct (is_timedout e); [|inversion H; subst; exists pre; reflexivity].
-  destruct (std_udp_exchange acc start lifetime qt jit f rest1 t1) as [[[s2 r2] t2] rest2] eqn:E2.
+  destruct (std_udp_exchange acc start lifetime qt jit proc f rest1 t1) as [[[s2 r2] t2] rest2] eqn:E2.
   apply IH in E2. destruct E2 as [pre2 ->]. inversion H; subst. exists (pre ++ pre2). rewrite app_assoc. reflexivity.
 Qed.
 Lemma async_recv_suffix dl : forall arrs now r t rest,
@@ -409,19 +426,19 @@ Qed.
 
 Theorem std_fuel_enough : forall fuel arrs now s r t rest, qt_pos -> start <= now ->
   (N.to_nat (D - now) < fuel)%nat ->
-  std_udp_exchange acc start lifetime qt jit fuel arrs now = (s, r, t, rest) -> r <> OutOfFuel.
+  std_udp_exchange acc start lifetime qt jit proc fuel arrs now = (s, r, t, rest) -> r <> OutOfFuel.
 Proof.
   induction fuel as [|f IH]; intros arrs now s r t rest Hq H1 Hf H; [lia|]. cbn [std_udp_exchange] in H.
   destruct (query_left_at_cases now start now lifetime qt H1 (N.le_refl _)) as [[A0 A]|[[A0 [A1 A]]|[A0 [A1 A]]]];
     rewrite A in H; cbn [retype] in H; try (inversion H; subst; discriminate).
-  destruct (std_recv_loop acc start lifetime qt jit now arrs now) as [[r1 t1] rest1] eqn:Er.
+  destruct (std_recv_loop acc start lifetime qt jit proc now arrs now) as [[r1 t1] rest1] eqn:Er.
   destruct (std_recv_bound now arrs now r1 t1 rest1 H1 (N.le_refl _) Er) as [Ha Hb].
   destruct r1 as [[d fl]|e| | | |]; try contradiction.
   - inversion H; subst. discriminate.
-  - destruct Hb as [[-> [-> Hb]]|[-> [Hb Hc]]].
+  - destruct Hb as [[[-> Hb]|[-> Hb]] Hc].
     + cbn [is_timedout] in H. inversion H; subst. discriminate.
     + cbn [is_timedout IO_TIMEDOUT] in H. replace (2 =? 2) with true in H by reflexivity.
-      destruct (std_udp_exchange acc start lifetime qt jit f rest1 t1) as [[[s2 r2] t2] rest2] eqn:E2.
+      destruct (std_udp_exchange acc start lifetime qt jit proc f rest1 t1) as [[[s2 r2] t2] rest2] eqn:E2.
       inversion H; subst. eapply (IH rest1 t1); try eassumption; lia.
 Qed.
 
@@ -529,7 +546,7 @@ Qed.
 Lemma std_tcp_read_bound (timeout_at : N -> res N) lo :
   (forall n, lo <= n -> (timeout_at n = Err Timeout) \/ (exists tau, timeout_at n = Ok tau /\ 0 < tau /\ n + tau <= D)) ->
   forall need bs eof now got r t rest, lo <= now ->
-  std_tcp_read jit timeout_at need bs eof now got = (r, t, rest) ->
+  std_tcp_read jit proc timeout_at need bs eof now got = (r, t, rest) ->
   now <= t /\ t <= N.max now (D + eps) /\ tcp_ok r.
 Proof.
   intros Hto. induction need as [|k IH]; intros bs eof now got r t rest Hlo H; cbn [std_tcp_read] in H.
@@ -539,7 +556,7 @@ Proof.
     + pose proof (jit_le now). destruct bs as [|[t1 b] bs'].
       * destruct eof as [te|]; [destruct (te <? now + tau) eqn:E|]; inversion H; subst; repeat split; try lia.
       * destruct (t1 <? now + tau) eqn:E.
-        -- apply IH in H; [|lia]. destruct H as (Ha & Hb & Hc). repeat split; try lia. assumption.
+        -- pose proof (proc_le (N.max now t1)). apply IH in H; [|lia]. destruct H as (Ha & Hb & Hc). repeat split; try lia. assumption.
         -- inversion H; subst. repeat split; try lia.
 Qed.
 
@@ -553,7 +570,7 @@ Proof.
 Qed.
 
 Theorem std_tcp_exchange_bound qs srv now r t : start <= qs -> qs <= now ->
-  std_tcp_exchange start lifetime jit buf_len qs srv now = (r, t) ->
+  std_tcp_exchange start lifetime jit proc buf_len qs srv now = (r, t) ->
   now <= t /\ t <= N.max now (D + eps) /\ tcp_ok r.
 Proof.
   intros H1 H2 H. unfold std_tcp_exchange in H.
@@ -573,12 +590,12 @@ Proof.
       { destruct (tp_accept srv) as [c|]; [|discriminate]. destruct (c <? tau) eqn:E; [|discriminate]. inversion Ec; subst. lia. }
       destruct (lifetime_left_at_cases now1 qs H1 ltac:(lia)) as [[B0 B]|[tau1 [B [B1 B2]]]]; rewrite B in H; cbn [retype] in H.
       * inversion H; subst. repeat split; lia.
-      * destruct (std_tcp_read jit (fun n => tcp_prefix_timeout_at n start qs lifetime) 2 (tp_bytes srv) (tp_eof srv) now1 []) as [[r2 now2] rest2] eqn:E2.
+      * destruct (std_tcp_read jit proc (fun n => tcp_prefix_timeout_at n start qs lifetime) 2 (tp_bytes srv) (tp_eof srv) now1 []) as [[r2 now2] rest2] eqn:E2.
         destruct (std_tcp_read_bound _ qs Hp 2%nat (tp_bytes srv) (tp_eof srv) now1 [] r2 now2 rest2 ltac:(lia) E2) as (C1 & C2 & C3).
         destruct r2 as [prefix|e| | | |]; try contradiction.
         -- destruct (std_tcp_too_big (be_val prefix 0) buf_len).
            ++ inversion H; subst. repeat split; lia.
-           ++ destruct (std_tcp_read jit (fun n => tcp_body_timeout_at n start qs lifetime) (N.to_nat (be_val prefix 0)) rest2 (tp_eof srv) now2 []) as [[r3 now3] rest3] eqn:E3.
+           ++ destruct (std_tcp_read jit proc (fun n => tcp_body_timeout_at n start qs lifetime) (N.to_nat (be_val prefix 0)) rest2 (tp_eof srv) now2 []) as [[r3 now3] rest3] eqn:E3.
               destruct (std_tcp_read_bound _ qs Hb (N.to_nat (be_val prefix 0)) rest2 (tp_eof srv) now2 [] r3 now3 rest3 ltac:(lia) E3) as (F1 & F2 & F3).
               inversion H; subst. repeat split; try lia. assumption.
         -- inversion H; subst. repeat split; lia.
@@ -643,17 +660,17 @@ Qed.
    later than start + lifetime + eps *)
 Theorem std_query_deadline fuel strategy arrs srv sends ev r t :
   qt_pos -> (N.to_nat lifetime < fuel)%nat ->
-  std_query acc start lifetime qt jit buf_len fuel strategy arrs srv = (sends, ev, r, t) ->
+  std_query acc start lifetime qt jit proc buf_len fuel strategy arrs srv = (sends, ev, r, t) ->
   start <= t /\ t <= D + eps /\ tcp_ok r.
 Proof.
   intros Hq Hf H. unfold std_query in H. destruct (std_udp_first strategy).
-  - destruct (std_udp_exchange acc start lifetime qt jit fuel arrs start) as [[[s1 r1] t1] rest1] eqn:E1.
+  - destruct (std_udp_exchange acc start lifetime qt jit proc fuel arrs start) as [[[s1 r1] t1] rest1] eqn:E1.
     destruct (std_exchange_bounds _ _ _ _ _ _ _ Hq (N.le_refl _) E1) as (B1 & B2 & B3 & B4 & B5 & _).
     assert (Hf' : (N.to_nat (D - start) < fuel)%nat) by lia.
     pose proof (std_fuel_enough fuel arrs start s1 r1 t1 rest1 Hq (N.le_refl _) Hf' E1) as Hnf.
     destruct r1 as [[d fl]|e| | | |]; cbn [exch_ok] in B3; try contradiction; try (exfalso; apply Hnf; reflexivity).
     + destruct (std_tc_fallback (flag_tc fl) (std_tcp_allowed strategy)).
-      * destruct (std_tcp_exchange start lifetime jit buf_len (last s1 start) srv t1) as [r2 t2] eqn:E2.
+      * destruct (std_tcp_exchange start lifetime jit proc buf_len (last s1 start) srv t1) as [r2 t2] eqn:E2.
         assert (Hl : start <= last s1 start /\ last s1 start <= t1).
         { destruct B4 as [->|[s' [-> _]]]; [cbn [last]; lia|].
           assert (Hin : In (last (start :: s') start) (start :: s')).
@@ -664,7 +681,7 @@ Proof.
         inversion H; subst. repeat split; try lia. apply tcp_ok_map_timeout; assumption.
       * inversion H; subst. repeat split; try lia.
     + subst e. inversion H; subst. cbn. repeat split; try lia.
-  - destruct (std_tcp_exchange start lifetime jit buf_len start srv start) as [r2 t2] eqn:E2.
+  - destruct (std_tcp_exchange start lifetime jit proc buf_len start srv start) as [r2 t2] eqn:E2.
     destruct (std_tcp_exchange_bound _ _ _ _ _ (N.le_refl _) (N.le_refl _) E2) as (C1 & C2 & C3).
     inversion H; subst. repeat split; try lia. apply tcp_ok_map_timeout; assumption.
 Qed.
@@ -753,8 +770,8 @@ Lemma filter_good std q d : filter_of std q d = Ok (good_of std q d).
 Proof. unfold good_of, filter_of. destruct (accept_total std (tq_id q) (tq_name q) (tq_type q) (tq_class q) d) as [o ->]. reflexivity. Qed.
 
 Definition zero_jit : N -> N := fun _ => 0.
-Definition exchange_of (std smol : bool) (q : tquery) (lifetime : N) (qt : option N) (jit : N -> N) (queue : list arrival) :=
-  if std then std_udp_exchange (filter_of true q) (tq_start q) lifetime qt jit (exchange_fuel lifetime) queue (tq_start q)
+Definition exchange_of (std smol : bool) (q : tquery) (lifetime : N) (qt : option N) (jit proc : N -> N) (queue : list arrival) :=
+  if std then std_udp_exchange (filter_of true q) (tq_start q) lifetime qt jit proc (exchange_fuel lifetime) queue (tq_start q)
   else async_udp_exchange (filter_of false q) (tq_start q) lifetime qt jit smol (exchange_fuel lifetime) queue (tq_start q).
 Definition outcome_of (x : list N * spec_result * N) : list N * res (list byte * N) * N :=
   (fst (fst x), res_of (snd (fst x)), snd x).
@@ -762,7 +779,7 @@ Definition outcome_of (x : list N * spec_result * N) : list N * res (list byte *
 (* with exact timers every client does what Spec/Retry.v says, on every queue in delivery order *)
 Theorem exchange_refines_spec std smol q lifetime qt queue lo :
   qt_pos qt -> 0 < lifetime -> sorted_from lo queue ->
-  exists rest, exchange_of std smol q lifetime qt zero_jit queue =
+  exists rest, exchange_of std smol q lifetime qt zero_jit zero_jit queue =
     (outcome_of (spec_udp (good_of std q) (exchange_fuel lifetime) (tq_start q) lifetime qt queue), rest) /\
     exists pre, queue = pre ++ rest.
 Proof.
@@ -786,7 +803,7 @@ Theorem history_refines_spec std smol lifetime qt : qt_pos qt -> 0 < lifetime ->
   Forall2 (fun q o => exists queue_k pre, queue = pre ++ queue_k /\
              o = outcome_of (spec_udp (good_of std q) (exchange_fuel lifetime) (tq_start q) lifetime qt
                                (filter (answers (good_of std q)) queue_k)))
-          qs (udp_history std smol lifetime qt zero_jit qs queue).
+          qs (udp_history std smol lifetime qt zero_jit zero_jit qs queue).
 Proof.
   intros Hq Hl. induction qs as [|q more IH]; intros queue lo Hs; cbn [udp_history]; [constructor|].
   destruct (exchange_refines_spec std smol q lifetime qt queue lo Hq Hl Hs) as [rest [E [pre Hp]]].
@@ -798,17 +815,17 @@ Proof.
 Qed.
 
 (* ================================================================ late timers, real filter, both families *)
-Lemma std_sends_nonempty good acc (Hacc : forall d, acc d = Ok (good d)) start lifetime qt jit f arrs now s r t rest :
+Lemma std_sends_nonempty good acc (Hacc : forall d, acc d = Ok (good d)) start lifetime qt jit proc f arrs now s r t rest :
   qt_pos qt -> start <= now -> now < start + lifetime ->
-  std_udp_exchange acc start lifetime qt jit (S f) arrs now = (s, r, t, rest) -> exists s', s = now :: s'.
+  std_udp_exchange acc start lifetime qt jit proc (S f) arrs now = (s, r, t, rest) -> exists s', s = now :: s'.
 Proof.
   intros Hq H1 H2 H. cbn [std_udp_exchange] in H.
   destruct (query_left_at_cases now start now lifetime qt H1 (N.le_refl _)) as [[A0 A]|[[A0 [A1 A]]|[A0 [A1 A]]]]; try lia.
   - exfalso. unfold qt_pos in Hq. unfold tmo in A1. destruct qt; lia.
-  - rewrite A in H. destruct (std_recv_loop acc start lifetime qt jit now arrs now) as [[r1 t1] rest1].
+  - rewrite A in H. destruct (std_recv_loop acc start lifetime qt jit proc now arrs now) as [[r1 t1] rest1].
     destruct r1 as [x|e| | | |]; try (inversion H; subst; eexists; reflexivity).
     destruct (is_timedout e); [|inversion H; subst; eexists; reflexivity].
-    destruct (std_udp_exchange acc start lifetime qt jit f rest1 t1) as [[[s2 r2] t2] rest2]. inversion H; subst. eexists; reflexivity.
+    destruct (std_udp_exchange acc start lifetime qt jit proc f rest1 t1) as [[[s2 r2] t2] rest2]. inversion H; subst. eexists; reflexivity.
 Qed.
 
 (* timers may fire up to eps late: the first transmission is at the start of the call, consecutive
@@ -816,28 +833,28 @@ Qed.
    than start + lifetime, the exchange ends with an answering datagram or with Timeout no later than
    start + lifetime + eps, and a Timeout is reported only when the last transmission was within one
    query timeout (plus eps) of the end of the lifetime — the retries were not given up early *)
-Theorem exchange_with_slack std smol q lifetime qt jit eps queue s r t rest :
-  (forall x, jit x <= eps) -> qt_pos qt -> 0 < lifetime ->
-  exchange_of std smol q lifetime qt jit queue = (s, r, t, rest) ->
+Theorem exchange_with_slack std smol q lifetime qt jit proc eps queue s r t rest :
+  (forall x, jit x <= eps) -> (forall x, proc x <= eps) -> qt_pos qt -> 0 < lifetime ->
+  exchange_of std smol q lifetime qt jit proc queue = (s, r, t, rest) ->
   tq_start q <= t /\ t <= tq_start q + lifetime + eps /\
   match r with Ok (d, fl) => good_of std q d = Some fl | Err e => e = Timeout | _ => False end /\
   (exists s', s = tq_start q :: s' /\ gaps (tq_start q) lifetime qt eps (tq_start q) s') /\
   Forall (fun x => tq_start q <= x /\ x <= t) s /\
   (r = Err Timeout -> tq_start q + lifetime <= last s (tq_start q) + tmo lifetime qt + eps).
 Proof.
-  intros Hj Hq Hl H. unfold exchange_of in H. destruct std.
-  - destruct (std_exchange_bounds _ _ (filter_good true q) _ _ _ _ _ Hj _ _ _ _ _ _ _ Hq (N.le_refl _) H) as (B1 & B2 & B3 & B4 & B5 & B6).
+  intros Hj Hp Hq Hl H. unfold exchange_of in H. destruct std.
+  - destruct (std_exchange_bounds _ _ (filter_good true q) _ _ _ _ _ _ Hj Hp _ _ _ _ _ _ _ Hq (N.le_refl _) H) as (B1 & B2 & B3 & B4 & B5 & B6).
     assert (Hf : (N.to_nat (tq_start q + lifetime - tq_start q) < exchange_fuel lifetime)%nat) by (unfold exchange_fuel; lia).
-    pose proof (std_fuel_enough _ _ (filter_good true q) _ _ _ _ _ Hj _ _ _ _ _ _ _ Hq (N.le_refl _) Hf H) as Hnf.
+    pose proof (std_fuel_enough _ _ (filter_good true q) _ _ _ _ _ _ Hj Hp _ _ _ _ _ _ _ Hq (N.le_refl _) Hf H) as Hnf.
     assert (Hs : tq_start q < tq_start q + lifetime) by lia.
-    destruct (std_sends_nonempty _ _ (filter_good true q) _ _ _ _ _ _ _ _ _ _ _ Hq (N.le_refl _) Hs H) as [s' ->].
+    destruct (std_sends_nonempty _ _ (filter_good true q) _ _ _ _ _ _ _ _ _ _ _ _ Hq (N.le_refl _) Hs H) as [s' ->].
     repeat split; try lia; try assumption.
     + destruct r as [[d fl]|e| | | |]; cbn [exch_ok] in B3; try contradiction; try assumption; try (apply Hnf; reflexivity).
     + destruct B4 as [B4|[s'' [B4 [_ B7]]]]; [discriminate|]. inversion B4; subst. exists s''. split; [reflexivity|assumption].
   - assert (Hs : tq_start q < tq_start q + lifetime) by lia.
-    destruct (async_exchange_bounds _ _ (filter_good false q) _ _ _ _ _ _ Hj _ _ _ _ _ _ _ Hq (N.le_refl _) Hs H) as (B1 & B2 & B3 & B4 & B5 & B6).
+    destruct (async_exchange_bounds _ _ (filter_good false q) _ _ _ _ _ _ _ Hj Hp _ _ _ _ _ _ _ Hq (N.le_refl _) Hs H) as (B1 & B2 & B3 & B4 & B5 & B6).
     assert (Hf : (N.to_nat (tq_start q + lifetime - tq_start q) <= exchange_fuel lifetime)%nat) by (unfold exchange_fuel; lia).
-    pose proof (async_fuel_enough _ _ (filter_good false q) _ _ _ _ _ _ Hj _ _ _ _ _ _ _ Hq (N.le_refl _) Hs Hf H) as Hnf.
+    pose proof (async_fuel_enough _ _ (filter_good false q) _ _ _ _ _ _ _ Hj Hp _ _ _ _ _ _ _ Hq (N.le_refl _) Hs Hf H) as Hnf.
     repeat split; try lia; try assumption.
     + destruct r as [[d fl]|e| | | |]; cbn [exch_ok] in B3; try contradiction; try assumption; try (apply Hnf; reflexivity).
     + destruct B4 as [[_ B4]|[s'' [B4 B7]]]; [contradiction|]. exists s''. split; assumption.
@@ -845,15 +862,15 @@ Qed.
 
 (* whatever arrives over UDP and whatever the TCP peer sends or withholds, the call returns — a
    response or an error — no later than start + lifetime + eps *)
-Theorem client_query_deadline std smol q lifetime qt jit eps buf_len strategy arrs srv sends ev r t :
-  (forall x, jit x <= eps) -> qt_pos qt -> 0 < lifetime ->
-  client_query_timed std smol q lifetime qt jit buf_len strategy arrs srv = (sends, ev, r, t) ->
+Theorem client_query_deadline std smol q lifetime qt jit proc eps buf_len strategy arrs srv sends ev r t :
+  (forall x, jit x <= eps) -> (forall x, proc x <= eps) -> qt_pos qt -> 0 < lifetime ->
+  client_query_timed std smol q lifetime qt jit proc buf_len strategy arrs srv = (sends, ev, r, t) ->
   tq_start q <= t /\ t <= tq_start q + lifetime + eps /\ match r with Ok _ | Err _ => True | _ => False end.
 Proof.
-  intros Hj Hq Hl H. unfold client_query_timed in H.
+  intros Hj Hp Hq Hl H. unfold client_query_timed in H.
   assert (Hf : (N.to_nat lifetime < exchange_fuel lifetime)%nat) by (unfold exchange_fuel; lia).
   destruct std.
-  - exact (std_query_deadline _ _ (filter_good true q) _ _ _ _ _ _ Hj _ _ _ _ _ _ _ _ Hq Hf H).
+  - exact (std_query_deadline _ _ (filter_good true q) _ _ _ _ _ _ _ Hj Hp _ _ _ _ _ _ _ _ Hq Hf H).
   - assert (Hf' : (N.to_nat lifetime <= exchange_fuel lifetime)%nat) by lia.
-    exact (async_query_deadline _ _ (filter_good false q) _ _ _ _ _ _ _ Hj _ _ _ _ _ _ _ _ Hq Hl Hf' H).
+    exact (async_query_deadline _ _ (filter_good false q) _ _ _ _ _ _ _ _ Hj Hp _ _ _ _ _ _ _ _ Hq Hl Hf' H).
 Qed.
